@@ -230,11 +230,29 @@ def steady_case(rng, cid):
     return Case(cid, ops)
 
 
+def wq_case(rng, cid):
+    """the shell's WriteQueue (lib/src/udp.rs) through the cfg(sozu_verif) hook: pushes up to and beyond the
+    cap, drains under scripted send outcomes (0 sent, 1 would block, 2 hard error)"""
+    cap = rng.choice([0, 1, 2, 3, 4, 64])
+    ops = [["wq_new", cap]]
+    n = 0
+    for _ in range(rng.randint(4, 30)):
+        if rng.random() < 0.6:
+            n += 1
+            ops.append(["wq_push", rng.choice(IPS), rng.choice(PORTS), bytes([n % 256]) + bytes(rng.randrange(256) for _ in range(rng.randint(0, 3)))])
+        else:
+            ops.append(["wq_drain", bytes(rng.choice([0, 0, 0, 1, 2]) for _ in range(rng.randint(0, 6)))])
+    ops.append(["wq_drain", b""])
+    return Case(cid, ops)
+
+
 def gen_cases(rng, tier):
     n = {"quick": 3000, "thorough": 60000, "search": 20000}.get(tier, 3000)
     out = []
     for i in range(n):
-        if i % 4 == 3:
+        if i % 20 == 19:
+            out.append(wq_case(rng, "w%d" % i))
+        elif i % 4 == 3:
             out.append(steady_case(rng, "s%d" % i))
         else:
             out.append(history_case(rng, "h%d" % i, rng.choice([10, 25, 40, 80])))
